@@ -88,7 +88,7 @@ func (c *Ctx) Check(rule, construct string, pos token.Pos, cond bool, okReason, 
 // Anchor resolves a module function by short name; an unresolved anchor is a
 // violated obligation (a rule must never pass vacuously).
 func (c *Ctx) Anchor(rule, name string) *Func {
-	f := c.P.Funcs[name]
+	f := c.P.Lookup(name)
 	if f == nil || f.Decl == nil || f.Decl.Body == nil {
 		c.Bad(rule, "anchor/"+name, token.NoPos, "reason=anchor-unresolved: function "+name+" not found in the module (renamed or removed?)")
 		return nil
